@@ -175,6 +175,26 @@ pub fn writers(pk: &Packet, refp: &[u8], refc: &[u8], k: usize, case: &mut Case,
         }
         n += 1;
     }
+    // --- fixed-size cursors that do not start at 0: room for the message exactly, and one byte short
+    for (compressed, reference) in [(false, refp), (true, refc)] {
+        for short in [0usize, 1] {
+            if reference.len() < short {
+                continue;
+            }
+            let cap = k + reference.len() - short;
+            let mut buf = vec![0xEEu8; cap];
+            let mut cur = Cursor::new(&mut buf[..]);
+            cur.set_position(k as u64);
+            let what = format!("{}(Cursor<&mut [u8; {}]> at {})", if compressed { "write_compressed_to" } else { "write_to" }, cap, k);
+            let r = if compressed { lib(&what, || pk.write_compressed_to(&mut cur)) } else { lib(&what, || pk.write_to(&mut cur)) };
+            let ok = write_err_ok(r, &what)?;
+            ensure!(ok == (short == 0), "c04:slice-result@origin", "{} returned {} for a {}-byte message", what, if ok { "Ok" } else { "Err" }, reference.len());
+            if ok {
+                ensure!(&buf[k..] == reference && buf[..k].iter().all(|b| *b == 0xEE), "c04:slice-differs@origin", "{} differs from the vector-returning entry point", what);
+            }
+            n += 1;
+        }
+    }
     case.extra_evals += n;
     Ok(())
 }
